@@ -5,6 +5,7 @@
 //     whose bounds lie on a 6-point grid scaled by 2 (0,2,..,10) at resolutions {raw,5m,1h};
 //   - histories: every sequence of add() and remove() calls with at least one remove (bounded number of adds and removes, a
 //     remove names any block added before it, present or already removed) over the 5-point grid (0,2,..,8) x {raw,5m,1h}.
+//
 // After the last operation getFor is called for every query range with integer bounds one below .. one above the grid (so
 // that bounds fall before, on, strictly inside and after blocks) x every maximum resolution around the two comparison
 // boundaries of the code (0, 5m-1, 5m, 1h-1, 1h, MaxInt64). Every prefix of a history is itself an enumerated history, so
@@ -240,6 +241,79 @@ func sortsAfter(a, b B) bool {
 	return a.Min > b.Min
 }
 
+// judge applies the statement to one answer: got are the numbers of the returned blocks, live says which blocks of c are in
+// the set. Each broken clause is passed to emit once. seen is scratch of len(c.Blocks). It returns the resolutions seen (bit set).
+func judge(c Case, live []bool, got []int, mint, maxt, maxRes int64, seen []int, emit func(sig, msg string)) (resSeen int) {
+	clear(seen)
+	for _, g := range got {
+		if g < 0 || g >= len(c.Blocks) {
+			emit("unknown-block-selected", "a returned entry is nil or a block that was never added")
+			continue
+		}
+		b := c.Blocks[g]
+		seen[g]++
+		resSeen |= 1 << uint(b.Res)
+		if !live[g] {
+			emit("removed-block-selected", fmt.Sprintf("block #%d is not in the set any more", g))
+		}
+		if resMillis[b.Res] > maxRes {
+			emit("block-above-max-resolution", fmt.Sprintf("block #%d has resolution %d", g, resMillis[b.Res]))
+		}
+		if !(b.Min <= maxt && b.Max > mint) {
+			emit("block-outside-query-range", fmt.Sprintf("block #%d [%d,%d) does not overlap the range", g, b.Min, b.Max))
+		}
+	}
+	for g, n := range seen {
+		if n > 1 {
+			emit("block-returned-twice:lower-resolution-block-spans-several-gaps", fmt.Sprintf("block #%d is returned %d times", g, n))
+		}
+	}
+	for ti := mint; ti <= maxt; ti++ {
+		avail, covered := -1, false
+		for i, b := range c.Blocks {
+			if b.Min <= ti && ti < b.Max {
+				if live[i] && resMillis[b.Res] <= maxRes {
+					avail = i
+				}
+				if seen[i] > 0 {
+					covered = true
+				}
+			}
+		}
+		if avail >= 0 && !covered {
+			emit("covered-instant-not-selected", fmt.Sprintf("instant %d is covered by block #%d (in the set, allowed resolution) but by no returned block", ti, avail))
+			break
+		}
+	}
+	return resSeen
+}
+
+// controlFails tells, for a counter-example found after a history with removes, whether the same clause is also broken when
+// the surviving blocks are simply added (in the order they were added) to a fresh set. It only chooses the signature:
+// ":after-remove" is appended when the plain layout answers the query correctly, i.e. the history is what matters.
+func controlFails(c Case, ops []Op, live []bool, mint, maxt, maxRes int64, sig string) (fails bool) {
+	defer func() {
+		if recover() != nil {
+			fails = true
+		}
+	}()
+	set := store.VerifC15Empty()
+	for _, o := range ops {
+		if o.Op == "add" && live[o.Block] {
+			b := c.Blocks[o.Block]
+			if err := set.Add(o.Block, store.VerifC15Block{Min: b.Min, Max: b.Max, Res: resMillis[b.Res]}); err != nil {
+				return true
+			}
+		}
+	}
+	judge(c, live, set.GetFor(mint, maxt, maxRes), mint, maxt, maxRes, make([]int, len(c.Blocks)), func(s, _ string) {
+		if s == sig {
+			fails = true
+		}
+	})
+	return fails
+}
+
 func evalCase(r *vlib.R, t *testing.T, c Case) {
 	r.Sample(c)
 	ops, err := c.history()
@@ -251,24 +325,25 @@ func evalCase(r *vlib.R, t *testing.T, c Case) {
 	if qHi == 0 {
 		qHi = qHiFor(gridPoints)
 	}
-	suffix, isHist := "", false
+	isHist := false
 	for _, o := range ops {
-		if o.Op == "remove" {
-			suffix, isHist = ":after-remove", true
-		}
+		isHist = isHist || o.Op == "remove"
 	}
 	hist := describe(c, ops)
 
 	// A panic of the code under test is a counter-example, not a crash of the check.
-	doing := ""
+	doing, doingSig := "", ""
 	var mint, maxt, maxRes int64
 	query := func() string { return fmt.Sprintf("getFor(mint=%d, maxt=%d, maxResolution=%d)", mint, maxt, maxRes) }
 	defer func() {
 		if p := recover(); p != nil {
 			if doing == "" {
-				doing = query()
+				doing, doingSig = query(), "getFor"
+				if isHist {
+					doingSig += ":after-remove"
+				}
 			}
-			r.Violation("panic-in-block-set"+suffix, fmt.Sprintf("history {%s}: %s panicked: %v", hist, doing, p), c)
+			r.Violation("panic-in-"+doingSig, fmt.Sprintf("history {%s}: %s panicked: %v", hist, doing, p), c)
 		}
 	}()
 
@@ -278,7 +353,7 @@ func evalCase(r *vlib.R, t *testing.T, c Case) {
 	for _, o := range ops {
 		b := c.Blocks[o.Block]
 		if o.Op == "add" {
-			doing = fmt.Sprintf("add(#%d)", o.Block)
+			doing, doingSig = fmt.Sprintf("add(#%d)", o.Block), "add"
 			if err := set.Add(o.Block, store.VerifC15Block{Min: b.Min, Max: b.Max, Res: resMillis[b.Res]}); err != nil {
 				t.Errorf("HARNESS-ERROR add failed for %+v: %v", c, err)
 				return
@@ -296,7 +371,7 @@ func evalCase(r *vlib.R, t *testing.T, c Case) {
 				}
 			}
 		}
-		doing = fmt.Sprintf("remove(#%d)", o.Block)
+		doing, doingSig = fmt.Sprintf("remove(#%d)", o.Block), "remove"
 		set.Remove(o.Block)
 		live[o.Block] = false
 	}
@@ -307,67 +382,28 @@ func evalCase(r *vlib.R, t *testing.T, c Case) {
 	reported := map[string]bool{}
 	seen := make([]int, len(c.Blocks))
 	var got []int
-	viol := func(sig, format string, a ...any) {
-		sig += suffix
-		if reported[sig] { // one counter-example per signature and case is enough
+	emit := func(sig, msg string) {
+		if reported[sig] { // one counter-example per clause and case is enough
 			return
 		}
 		reported[sig] = true
-		r.Violation(sig, fmt.Sprintf("history {%s}: %s returned blocks %v: ", hist, query(), got)+fmt.Sprintf(format, a...), c)
+		if isHist && !controlFails(c, ops, live, mint, maxt, maxRes, sig) {
+			sig += ":after-remove"
+		}
+		r.Violation(sig, fmt.Sprintf("history {%s}: %s returned blocks %v: %s", hist, query(), got, msg), c)
 	}
 	for mint = int64(qLo); mint <= int64(qHi); mint++ {
 		for maxt = mint; maxt <= int64(qHi); maxt++ {
 			for _, maxRes = range maxResAlphabet {
 				got = set.GetFor(mint, maxt, maxRes)
 				calls++
-				clear(seen)
-				resSeen := 0
-				for _, g := range got {
-					if g < 0 || g >= len(c.Blocks) {
-						viol("unknown-block-selected", "a returned entry is nil or a block that was never added")
-						continue
-					}
-					b := c.Blocks[g]
-					seen[g]++
-					resSeen |= 1 << uint(b.Res)
-					if !live[g] {
-						viol("removed-block-selected", "block #%d is not in the set any more", g)
-					}
-					if resMillis[b.Res] > maxRes {
-						viol("block-above-max-resolution", "block #%d has resolution %d", g, resMillis[b.Res])
-					}
-					if !(b.Min <= maxt && b.Max > mint) {
-						viol("block-outside-query-range", "block #%d [%d,%d) does not overlap the range", g, b.Min, b.Max)
-					}
-				}
+				resSeen := judge(c, live, got, mint, maxt, maxRes, seen, emit)
 				if len(got) > 0 {
 					nonEmpty++
 				}
 				if resSeen&(resSeen-1) != 0 {
 					multi = true
 					filled++
-				}
-				for g, n := range seen {
-					if n > 1 {
-						viol("block-returned-twice:lower-resolution-block-spans-several-gaps", "block #%d is returned %d times", g, n)
-					}
-				}
-				for ti := mint; ti <= maxt; ti++ {
-					avail, covered := -1, false
-					for i, b := range c.Blocks {
-						if b.Min <= ti && ti < b.Max {
-							if live[i] && resMillis[b.Res] <= maxRes {
-								avail = i
-							}
-							if seen[i] > 0 {
-								covered = true
-							}
-						}
-					}
-					if avail >= 0 && !covered {
-						viol("covered-instant-not-selected", "instant %d is covered by block #%d (in the set, allowed resolution) but by no returned block", ti, avail)
-						break
-					}
 				}
 			}
 		}
